@@ -13,6 +13,9 @@ def layer_real_name(l):
     # 'zzmod' (its dotted name sorts after the unit-test layer's)
     if l.startswith('zz_'):
         return 'zzmod.' + l
+    if l.startswith('UnitTests'):
+        # look-alike of the unit layer's name (matched by it as a regex)
+        return 'zope_testrunner_layer.' + l
     return UNIT_NAME if l == '' else 'tests.' + l
 
 
@@ -23,6 +26,8 @@ def layer_abstract_name(real):
         return real[len('tests.'):]
     if real.startswith('zzmod.'):
         return real[len('zzmod.'):]
+    if real.startswith('zope_testrunner_layer.'):
+        return real[len('zope_testrunner_layer.'):]
     return real
 
 
